@@ -5,6 +5,7 @@ import Driver.C16
 import Driver.C04
 import Driver.CMD
 import Driver.C06
+import Driver.C10
 open Driver
 
 def dispatch (op : String) (args : List String) (obs : String) : Option Verdict :=
@@ -14,6 +15,7 @@ def dispatch (op : String) (args : List String) (obs : String) : Option Verdict 
   <|> (Driver.C04.handle op args obs)
   <|> (Driver.CMD.handle op args obs)
   <|> (Driver.C06.handle op args obs)
+  <|> (Driver.C10.handle op args obs)
 
 def processLine (line : String) : String :=
   let line := line.trimRight
